@@ -5,6 +5,8 @@ Driver for C15.  One case = one history.  Op lines (integer tokens, `_` = resour
   add <name> <parent> <isParent> <tree> <force> <treeRoot> <swNeg> <hasPods> <nns> <ns>* <min>*3 <max>*3
   upd  (same layout)
   del <name> <labelPods>
+  compact                 (from here on: one observation line per request, parts joined by " | ")
+  try <add|upd|del ...>   (evaluate on the current state, print, do NOT commit)
 After every op: `res <0|1>`, then the recorded topology:
   `q <name> <parent> <isParent> <tree> <force> <treeRoot> <min>*3 <max>*3` (by name),
   `h <key> <child>*` (by key, children sorted), `n <ns> <quota>` (by ns).
@@ -71,16 +73,29 @@ def dump (s : Topo) : List String :=
   let nl := nsKeys.filterMap (fun n => (nsGet s.nsMap n).map fun q => s!"n {n} {q}")
   qs ++ hs ++ nl
 
-def runLines : Topo → List String → List String
-  | _, [] => []
-  | s, l :: ls =>
-    match parseOp l with
-    | none => "bad-op" :: runLines s ls
-    | some op =>
-      let r := step dims s op
-      (s!"res {b2i r.2}" :: dump r.1) ++ runLines r.1 ls
+/-- one executed request: verdict line + dump; `compact` = everything on one line (exhaustive stream). -/
+def showRes (compact : Bool) (r : Topo × Bool) : List String :=
+  let ls := s!"res {b2i r.2}" :: dump r.1
+  if compact then [" | ".intercalate ls] else ls
 
-def runCase (lines : List String) : List String := runLines init lines
+/-- `compact` switches to one-line dumps; `try <request>` evaluates a request on the current state
+    WITHOUT committing it (the harness rebuilds the real topology from the committed prefix). -/
+def runLines : Topo → Bool → List String → List String
+  | _, _, [] => []
+  | s, c, l :: ls =>
+    if l.trim = "compact" then runLines s true ls
+    else if l.startsWith "try " then
+      match parseOp (l.drop 4) with
+      | none => "bad-op" :: runLines s c ls
+      | some op => showRes c (step dims s op) ++ runLines s c ls
+    else
+      match parseOp l with
+      | none => "bad-op" :: runLines s c ls
+      | some op =>
+        let r := step dims s op
+        showRes c r ++ runLines r.1 c ls
+
+def runCase (lines : List String) : List String := runLines init false lines
 
 end KoordVerif.C15
 
